@@ -83,6 +83,14 @@ def _geometry(rng, nrng, kind):
         span = np.maximum(hi - lo, 1.0)
         geo["mesh_shape"] = None
         geo["mesh_points"] = 0.5 * (lo + hi) + (nrng.random((npts, 2)) - 0.5) * span * rng.choice([0.7, 1.0, 1.3])
+        r = rng.random()
+        if r < 0.04:
+            # a hub vertex with 34..40 neighbours (random point sets stop at about 15): "all Delaunay vertex sets" has no degree bound
+            m = rng.randint(34, 40)
+            ang = np.linspace(0.0, 2.0 * np.pi, m, endpoint=False) + 0.002 * nrng.normal(size=m)
+            rad = 0.5 * float(span.min()) * (1.0 + 5e-4 * nrng.normal(size=(m, 1)))      # convex rim: the hub sees every rim vertex
+            rim = np.stack([np.sin(ang), np.cos(ang)], axis=1) * rad
+            geo["mesh_points"] = np.vstack([[0.5 * (lo + hi)], 0.5 * (lo + hi) + rim])
     return geo
 
 
@@ -111,6 +119,12 @@ def _gen_all(rng, tier):
                     par["scale"] = par["scale"] * _spacing(geo)
                 case = dict(geo)
                 case.update({"scheme": scheme, "params": par})
+                if kind == "delaunay" and scheme in ("GaussianKernel", "ExponentialKernel") and rng.random() < 0.2:
+                    # two mesh vertices at the same position: the kernel schemes depend on positions only, and their ridge keeps the
+                    # matrix positive definite and of the mesh's size
+                    mp = case["mesh_points"].copy()
+                    mp[-1] = mp[0]
+                    case["mesh_points"] = mp
                 yield case
             k += 1
 
